@@ -22,7 +22,7 @@ CHECKS = {
     "C02": {"sim": "searchsim", "quick": {"runs": 20000, "wall_s": 70, "runs_per_spec": 25, "run_wall_cap": 25, "spec": {"raising_rate": 0.5}}, "thorough": {"runs": 400000, "wall_s": 1500, "runs_per_spec": 30, "run_wall_cap": 40, "spec": {"max_h": 7, "max_r": 5, "body_rules": 4, "raising_rate": 0.5}}},
     "C03": {"sim": "searchsim", "quick": {"runs": 20000, "wall_s": 70, "runs_per_spec": 25, "run_wall_cap": 25, "spec": {"inexact_pair_rate": 0.5, "raising_rate": 0.0}}, "thorough": {"runs": 400000, "wall_s": 1500, "runs_per_spec": 30, "run_wall_cap": 40, "spec": {"max_h": 7, "max_r": 5, "inexact_pair_rate": 0.5, "raising_rate": 0.0}}},
     "C11": {"sim": "searchsim", "quick": {"runs": 20000, "wall_s": 70, "runs_per_spec": 25, "run_wall_cap": 25, "spec": {}}, "thorough": {"runs": 400000, "wall_s": 1500, "runs_per_spec": 30, "run_wall_cap": 40, "spec": {"max_h": 7, "max_r": 5, "body_rules": 4}}},
-    "C16": {"sim": "searchsim", "quick": {"runs": 20000, "wall_s": 70, "runs_per_spec": 25, "run_wall_cap": 25, "spec": {"generators": True}, "gen_fault_rate": 0.08}, "thorough": {"runs": 400000, "wall_s": 1500, "runs_per_spec": 30, "run_wall_cap": 40, "spec": {"max_h": 5, "max_r": 3}, "gen_fault_rate": 0.08}},
+    "C16": {"sim": "searchsim", "quick": {"runs": 20000, "wall_s": 70, "runs_per_spec": 25, "run_wall_cap": 25, "spec": {"generators": True, "gen_record_rate": 0.7}, "gen_fault_rate": 0.08}, "thorough": {"runs": 400000, "wall_s": 1500, "runs_per_spec": 30, "run_wall_cap": 40, "spec": {"max_h": 5, "max_r": 3, "gen_record_rate": 0.7}, "gen_fault_rate": 0.08}},
     "C09": {"sim": "treesim", "quick": {"runs": 60000, "wall_s": 45, "runs_per_spec": 1, "run_wall_cap": 10}, "thorough": {"runs": 600000, "wall_s": 1200, "runs_per_spec": 1, "run_wall_cap": 10}},
     "C10": {"further": [{"sim": "searchsim", "quick": {"runs": 20000, "wall_s": 45, "runs_per_spec": 25, "run_wall_cap": 25, "spec": {}}, "thorough": {"runs": 400000, "wall_s": 1200, "runs_per_spec": 30, "run_wall_cap": 40, "spec": {"max_h": 7, "max_r": 5}}}], "sim": "treesim", "quick": {"runs": 60000, "wall_s": 45, "runs_per_spec": 1, "run_wall_cap": 10}, "thorough": {"runs": 600000, "wall_s": 1200, "runs_per_spec": 1, "run_wall_cap": 10}},
     "C17": {"sim": "reprosim", "quick": {"runs": 4000, "wall_s": 70, "runs_per_spec": 12, "run_wall_cap": 60, "spec": {"max_h": 3, "max_r": 2, "body_rules": 2}}, "thorough": {"runs": 200000, "wall_s": 1500, "runs_per_spec": 16, "run_wall_cap": 90, "spec": {}}},
@@ -93,7 +93,7 @@ MANIFEST_TEXT = {
     "C16": {
         "level": "Seeded exploration with a generator ledger: generator expressions call back into the harness, which decides per invocation whether a fitting value, a misfit or an exception is returned; every evaluated/emitted/population tree must carry ledger values under generator symbols with read-only children, and an injected misfit/raise must surface as an error.",
         "design_ref": "DESIGN.md §6.1",
-        "note": _NOTE + " Constant/random generators without parameters; dependent generator pairs are not generated.",
+        "note": _NOTE + " Generators without parameters (regex-terminal or structured rule, also inside two same-shaped records tied by an equality constraint so that repair copies one into the other) and generators with one or two parameter symbols; nested generators (a generator inside another generator's rule) are not generated.",
         "technique": "deterministic simulation of the search with fault injection into generator call-backs and a ledger-based history check",
     },
     "C12": {
